@@ -18,6 +18,9 @@ const defaultArgonTime uint32 = 1
 const defaultArgonThreads uint8 = 2
 const defaultArgonKeyLen uint32 = 32
 
+// The largest memory parameter (in KiB) accepted from a stored hash: 4 GiB.
+const maxArgonMem uint32 = 4 * 1024 * 1024
+
 type PHC struct {
 	id      string
 	version int
@@ -132,6 +135,11 @@ func ParsePHC(s string) (*PHC, error) {
 	}
 	if memory == 0 || time == 0 || threads == 0 {
 		return nil, fmt.Errorf("missing required parameters m,t,p or zero values")
+	}
+	if memory > maxArgonMem {
+		// Verifying allocates m KiB at once; an allocation that cannot be met ends the process
+		// ("out of memory" is not a recoverable panic).
+		return nil, fmt.Errorf("m value too large: %d KiB (at most %d)", memory, maxArgonMem)
 	}
 
 	// Decode salt (expect 16 bytes to fit [16]byte)
